@@ -25,7 +25,7 @@ import _engine as E  # noqa: E402
 import _gs1  # noqa: E402
 
 PROPERTY = 'C16'
-SEPARATORS = ['', '\x1d', '^', '~']
+SEPARATORS = ['', '\x1d', '^', '~', '[FNC1]']   # the last one is the multi-character stand-in of the library's own doctests
 
 RULE = ('mappings: k in 1..5 distinct AIs drawn from the 213 registered ones (every AI is drawn at least once as a '
         'singleton with min / max / random length values), values from the declared format: fixed and variable '
@@ -143,7 +143,7 @@ def rel_is_valid(items, sep, par, order, day00, extra_sep):
 
 
 RELATIONS = {'roundtrip': rel_roundtrip, 'handbuilt': rel_handbuilt, 'is_valid': rel_is_valid}
-SALIENT = ['decimal-text-longer-than-field', 'decimal-exponent-notation', 'time-0000', 'minute-00', 'second-00',
+SALIENT = ['decimal-text-longer-than-field', 'decimal-exponent-notation', 'time-0000', 'minute-00', 'second-00', 'round-time-field',
            'int-leading-zeros', 'date-range']
 
 
@@ -225,6 +225,8 @@ def evaluate(ctx_col, found, items, sep, par, order, day00, extra_sep, names=('r
             site = 'stdnum/gs1_128.py:compact:%s: %s' % (relation, diag)
         elif site is None:
             site = 'stdnum/gs1_128.py:%s:%s: %s' % (function, relation, diag)
+        else:       # an exception: the raising line names the symptom, the diagnosis the shape of the values that cause it
+            site = '%s [%s]' % (site, diag)
         m = [(ai, v) for ai, v, t, tg in mitems]
         x = handbuilt(mitems, sep, par, morder, day00, extra_sep)[0] if name != 'roundtrip' else None
         args = [repr(dict(m)) if name == 'roundtrip' else x, sep] + ([par] if name == 'roundtrip' else [])
